@@ -158,6 +158,46 @@ impl Scope {
         }
     }
 
+    /// Reads the header of the extension part (part2) of an [`Scope::ExtensibleSequence`] and
+    /// switches to the presence flags of the extension fields. The flags cover as many extension
+    /// fields as the sender has transmitted: if the sender knows less fields, the further ones are
+    /// not present, if it knows more, the flags of the unknown ones remain in the scope once all
+    /// known fields have been read (see [`UperReader::skip_unknown_extension_fields`]).
+    fn read_extension_header(
+        &mut self,
+        #[cfg(feature = "descriptive-deserialize-errors")] descriptions: &mut Vec<ScopeDescription>,
+        bits: &mut impl ScopedBitRead,
+    ) -> Result<(), Error> {
+        if let Scope::ExtensibleSequence {
+            name,
+            bit_pos: ext_bit_pos,
+            opt_bit_field: _,
+            calls_until_ext_bitfield: _,
+            number_of_ext_fields,
+        } = self
+        {
+            if bits.with_read_position_at(*ext_bit_pos, |b| b.read_bit())? {
+                let read_number_of_ext_fields =
+                    (bits.read_normally_small_length()? as usize).saturating_add(1);
+                if read_number_of_ext_fields > *number_of_ext_fields {
+                    #[cfg(feature = "descriptive-deserialize-errors")]
+                    descriptions.push(ScopeDescription::warning(
+                        format!("read_number_of_ext_fields({read_number_of_ext_fields}) > *number_of_ext_fields({number_of_ext_fields})")
+                    ));
+                }
+                if bits.remaining() < read_number_of_ext_fields {
+                    return Err(ErrorKind::EndOfStream.into());
+                }
+                let range = bits.pos()..bits.pos() + read_number_of_ext_fields;
+                bits.set_pos(range.end); // skip bit-field
+                *self = Scope::AllBitField(range);
+            } else {
+                *self = Scope::ExtensibleSequenceEmpty(name);
+            }
+        }
+        Ok(())
+    }
+
     #[inline]
     pub fn read_from_field(
         &mut self,
@@ -190,34 +230,18 @@ impl Scope {
                 }
             }
             Scope::ExtensibleSequence {
-                name,
-                bit_pos: ext_bit_pos,
+                name: _,
+                bit_pos: _,
                 opt_bit_field,
                 calls_until_ext_bitfield,
-                number_of_ext_fields,
+                number_of_ext_fields: _,
             } => {
                 if *calls_until_ext_bitfield == 0 {
-                    if bits.with_read_position_at(*ext_bit_pos, |b| b.read_bit())? {
-                        let read_number_of_ext_fields =
-                            bits.read_normally_small_length()? as usize + 1;
-                        if read_number_of_ext_fields > *number_of_ext_fields {
-                            #[cfg(feature = "descriptive-deserialize-errors")]
-                            descriptions.push(ScopeDescription::warning(
-                                format!("read_number_of_ext_fields({read_number_of_ext_fields}) > *number_of_ext_fields({number_of_ext_fields})")
-                            ));
-                            //     return Err(Error::UnsupportedOperation(format!(
-                            //         "Expected no more than {} extended field{} but got {}",
-                            //         number_of_ext_fields,
-                            //         if *number_of_ext_fields != 1 { "s" } else { "" },
-                            //         read_number_of_ext_fields
-                            //     )));
-                        }
-                        let range = bits.pos()..bits.pos() + *number_of_ext_fields;
-                        bits.set_pos(range.start + read_number_of_ext_fields); // skip bit-field
-                        *self = Scope::AllBitField(range);
-                    } else {
-                        *self = Scope::ExtensibleSequenceEmpty(name);
-                    }
+                    self.read_extension_header(
+                        #[cfg(feature = "descriptive-deserialize-errors")]
+                        descriptions,
+                        bits,
+                    )?;
                     self.read_from_field(
                         #[cfg(feature = "descriptive-deserialize-errors")]
                         descriptions,
@@ -873,6 +897,48 @@ impl<B: ScopedBitRead> UperReader<B> {
         result
     }
 
+    /// To be called after all known fields of an extensible sequence have been read: skips the
+    /// extension fields a more recent version of the sender has appended and which are unknown here,
+    /// so that the reader ends up behind the sequence (ITU-T X.691 | ISO/IEC 8825-2:2015, 19.9)
+    fn skip_unknown_extension_fields(&mut self) -> Result<(), Error> {
+        // if no extension field is known, nothing has triggered reading the extension header yet
+        if let Some(
+            scope @ Scope::ExtensibleSequence {
+                calls_until_ext_bitfield: 0,
+                ..
+            },
+        ) = &mut self.scope
+        {
+            scope.read_extension_header(
+                #[cfg(feature = "descriptive-deserialize-errors")]
+                &mut self.scope_description,
+                &mut self.bits,
+            )?;
+        }
+
+        while let Some(Scope::AllBitField(range)) = &mut self.scope {
+            if range.start >= range.end {
+                break;
+            }
+            let flag_pos = range.start;
+            range.start += 1;
+            if self
+                .bits
+                .with_read_position_at(flag_pos, |buffer| buffer.read_bit())?
+            {
+                // the content is wrapped as open type, its length in bytes tells how much to skip
+                let length_bytes = self.bits.read_length_determinant(None, None)? as usize;
+                let end = self.bits.pos() + (length_bytes * BYTE_LEN);
+                if end > self.bits.len() {
+                    return Err(ErrorKind::EndOfStream.into());
+                }
+                self.bits.set_pos(end);
+            }
+        }
+
+        Ok(())
+    }
+
     #[inline]
     pub fn read_bit_field_entry(&mut self, is_opt: bool) -> Result<Option<bool>, Error> {
         #[allow(clippy::let_and_return)]
@@ -979,7 +1045,11 @@ impl<B: ScopedBitRead> Reader for UperReader<B> {
                         calls_until_ext_bitfield: (extension_after + 1) as usize,
                         number_of_ext_fields: (C::FIELD_COUNT - (extension_after + 1)) as usize,
                     },
-                    f,
+                    |r| {
+                        let value = f(r)?;
+                        r.skip_unknown_extension_fields()?;
+                        Ok(value)
+                    },
                 )
             } else {
                 r.scope_pushed(Scope::OptBitField(range), f)
